@@ -6,7 +6,9 @@
   * `Spec.*`   : the binary interchange format of IEEE 754-2008 §3.4 (field layout, value of a bit
                  string, byte strings of both orders), written from the standard.
   * lib-shaped : `float32_be_read … double64_le_write` as the C computes them (bug for bug; the rules before the `fix:` commits
-                 — `fabs (in) < 1e-30` flush of the writers, hidden bit for exponent field 0 in the readers — are kept as `…Old`),
+                 — `fabs (in) < 1e-30` flush of the writers, hidden bit for exponent field 0 in the readers — are kept as `…Old`;
+                 the writers between that repair and the repair of KF-C01-ieee-tiny / KF-C18-PEAK-SUBNORMAL — early `return`
+                 on `fabs (in) < FLT_MIN`, i.e. no encoding for exponent field 0 — are kept as `…TinyOld`),
                  `f2bf_array`/`bf2f_array` + `endswap_*_array` as the `replace_*` paths use them,
                  `ENDSWAP_16/32/64`, `psf_put_be*`, `psf_get_be*/le*`.
 
@@ -108,7 +110,8 @@ def flushBoundOld : Dy := ⟨false, 5708990770823840, -152⟩
 /-- `FLT_MIN` = 2^-126 / `DBL_MIN` = 2^-1022: the smallest normal number of the format -/
 def flushBound (f : Fmt) : Dy := ⟨false, 1, 1 - (f.bias : Int)⟩
 
-/-- `fabs (in) < FLT_MIN` (`DBL_MIN`) for a finite argument (the comparison is made in double; binary32 widens exactly):
+/-- `in < FLT_MIN` (`DBL_MIN`) after the sign is stripped — before the repair of KF-C01-ieee-tiny `fabs (in) < FLT_MIN` —
+    for a finite argument (the comparison is made in double; binary32 widens exactly):
     true exactly for zeros and subnormals (theorem `flushes_iff_not_normal`) -/
 def flushes (f : Fmt) (b : Nat) : Bool := f.isFinite b && (f.toDy b).abs.lt (flushBound f)
 
@@ -119,8 +122,8 @@ def flushesOld (f : Fmt) (b : Nat) : Bool := f.isFinite b && (f.toDy b).abs.lt f
     Returned as (L, exponent). -/
 def frexpOf (d : Dy) : Nat × Int := (bitLen d.m, d.e + (bitLen d.m : Int))
 
-/-- sign, biased exponent and 23-bit mantissa as `float32_*_write` computes them; `none` = the early `return`
-    that leaves the four zero bytes of the `memset`.
+/-- sign, biased exponent and 23-bit mantissa as `float32_*_write` computed them BEFORE the repair of KF-C01-ieee-tiny
+    (`fl` = the flush rule); `none` = the early `return` that leaves the four zero bytes of the `memset`.
     Inf and NaN (outside every theorem, kept for the correspondence): glibc `frexp` returns the argument and
     exponent 0, `(int) in` is the x86-64 "integer indefinite" 0x80000000 whose low 23 bits are 0. -/
 def f32WriteFieldsWith (fl : Nat → Bool) (b : Nat) : Option (Nat × Nat × Nat) :=
@@ -135,24 +138,51 @@ def f32WriteFieldsWith (fl : Nat → Bool) (b : Nat) : Option (Nat × Nat × Nat
     let scaled := d.m * 0x1000000 / 2 ^ L                               -- `(int) (in * (float) 0x1000000)` truncates
     some (negative, exponent, scaled % 0x800000)                        -- `& 0x7FFFFF`
 
-def f32WriteFields := f32WriteFieldsWith (flushes f32)
-
-/-- the four output bytes, most significant first (`out [0..3]` of `float32_be_write`) -/
-def f32WriteBytesWith (fl : Nat → Bool) (b : Nat) : List Byte :=
-  match f32WriteFieldsWith fl b with
-  | none => [0, 0, 0, 0]
-  | some (negative, exponent, mantissa) =>
+/-- the four output bytes, most significant first (`out [0..3]` of `float32_be_write`), from sign, exponent field, mantissa -/
+def f32FieldBytes : Nat × Nat × Nat → List Byte
+  | (negative, exponent, mantissa) =>
     [negative * 128 + exponent / 2 % 128,                               -- `|= 0x80`, `|= (exponent >> 1) & 0x7F`
      (exponent % 2) * 128 + mantissa / 65536 % 128,                     -- `if (exponent & 1) |= 0x80`, `|= (mantissa >> 16) & 0x7F`
      mantissa / 256 % 256,
      mantissa % 256]
 
-def f32WriteBytes := f32WriteBytesWith (flushes f32)
+/-- the writers with an early `return` (the two rules before the repair of KF-C01-ieee-tiny) -/
+def f32WriteBytesWith (fl : Nat → Bool) (b : Nat) : List Byte :=
+  match f32WriteFieldsWith fl b with
+  | none => [0, 0, 0, 0]
+  | some x => f32FieldBytes x
+
+/-- `(int) x` of the non-negative dyadic m · 2^e · 2^k (truncation; exact whenever e + k ≥ 0) -/
+def truncScaled (d : Dy) (k : Nat) : Nat :=
+  if 0 ≤ d.e + (k : Int) then d.m * 2 ^ (d.e + (k : Int)).toNat else d.m / 2 ^ (-(d.e + (k : Int))).toNat
+
+/-- sign, exponent field and 23-bit mantissa as the REPAIRED `float32_*_write` computes them (no early return any more):
+    `if (signbit (in)) { in *= -1.0 ; negative = 1 ; }` — the sign BIT, so −0.0 keeps it;
+    `if (in < FLT_MIN) { in = ldexp (in, 125) ; exponent = 0 ; } else { in = frexp (in, &exponent) ; exponent += 126 ; }` —
+    zero and subnormals: exponent field 0 and, after the common `in *= (float) 0x1000000`, `(int) in` = in · 2^149 (every step
+    is a scaling by a power of two of a value with at most 23 significant bits that stays inside the normal range: exact).
+    Inf and NaN (outside every theorem, kept for the correspondence): `in < FLT_MIN` is false, glibc `frexp` returns the
+    argument and exponent 0, `(int) in` is the x86-64 "integer indefinite" 0x80000000 whose low 23 bits are 0; the sign is the
+    sign bit (also for a NaN, since the repair). -/
+def f32WriteFields (b : Nat) : Nat × Nat × Nat :=
+  let negative := if f32.sign b then 1 else 0
+  if !f32.isFinite b then (negative, 126, 0)
+  else
+    let d := f32.toDy b
+    if flushes f32 b then (negative, 0, truncScaled d 149 % 0x800000)  -- zero / subnormal
+    else
+      let (L, ex) := frexpOf d                                            -- `in = frexp (in, &exponent)`
+      (negative, (ex + 126).toNat, d.m * 0x1000000 / 2 ^ L % 0x800000)  -- `exponent += 126`; `(int) (in * 2^24) & 0x7FFFFF`
+
+def f32WriteBytes (b : Nat) : List Byte := f32FieldBytes (f32WriteFields b)
 def f32BeWrite (b : Nat) : List Byte := f32WriteBytes b
 def f32LeWrite (b : Nat) : List Byte := (f32WriteBytes b).reverse
-/-- the writers before the repair (`fabs (in) < 1e-30`) -/
+/-- the writers before the first repair (`fabs (in) < 1e-30`) -/
 def f32BeWriteOld (b : Nat) : List Byte := f32WriteBytesWith (flushesOld f32) b
 def f32LeWriteOld (b : Nat) : List Byte := (f32WriteBytesWith (flushesOld f32) b).reverse
+/-- the writers before the repair of KF-C01-ieee-tiny / KF-C18-PEAK-SUBNORMAL (`if (fabs (in) < FLT_MIN) return ;`, `if (in < 0.0)`) -/
+def f32BeWriteTinyOld (b : Nat) : List Byte := f32WriteBytesWith (flushes f32) b
+def f32LeWriteTinyOld (b : Nat) : List Byte := (f32WriteBytesWith (flushes f32) b).reverse
 
 /-! ## double64.c -/
 
@@ -214,22 +244,51 @@ def f64WriteFieldsWith (fl : Nat → Bool) (b : Nat) : Option (Nat × Nat × Nat
     let lo := (scaled % 2 ^ L) * 0x1000000 / 2 ^ L
     some (negative, exponent, hi, lo)
 
-def f64WriteFields := f64WriteFieldsWith (flushes f64)
-
-def f64WriteBytesWith (fl : Nat → Bool) (b : Nat) : List Byte :=
-  match f64WriteFieldsWith fl b with
-  | none => [0, 0, 0, 0, 0, 0, 0, 0]
-  | some (negative, exponent, hi, lo) =>
+/-- the eight output bytes, most significant first, from sign, exponent field, upper and lower mantissa integers -/
+def f64FieldBytes : Nat × Nat × Nat × Nat → List Byte
+  | (negative, exponent, hi, lo) =>
     [negative * 128 + exponent / 16 % 128,                              -- `|= 0x80`, `|= (exponent >> 4) & 0x7F`
      (exponent % 16) * 16 + hi / 16777216 % 16,                         -- `|= (exponent << 4) & 0xF0`, `|= (mantissa >> 24) & 0xF`
      hi / 65536 % 256, hi / 256 % 256, hi % 256,
      lo / 65536 % 256, lo / 256 % 256, lo % 256]
 
-def f64WriteBytes := f64WriteBytesWith (flushes f64)
+/-- the writers with an early `return` (the two rules before the repair of KF-C01-ieee-tiny) -/
+def f64WriteBytesWith (fl : Nat → Bool) (b : Nat) : List Byte :=
+  match f64WriteFieldsWith fl b with
+  | none => [0, 0, 0, 0, 0, 0, 0, 0]
+  | some x => f64FieldBytes x
+
+/-- `floor (x)` and `floor (fmod (x, 1.0) * 2^k)` of the non-negative dyadic x = m · 2^e -/
+def splitScaled (m : Nat) (e : Int) (k : Nat) : Nat × Nat :=
+  if 0 ≤ e then (m * 2 ^ e.toNat, 0)
+  else (m / 2 ^ (-e).toNat, (m % 2 ^ (-e).toNat) * 2 ^ k / 2 ^ (-e).toNat)
+
+/-- the REPAIRED `double64_*_write`: `if (signbit (in)) { in *= -1.0 ; out [0] |= 0x80 ; }`;
+    `if (in < DBL_MIN) { in = ldexp (in, 1021) ; exponent = 0 ; } else { in = frexp (in, &exponent) ; exponent += 1022 ; }`;
+    then as before `in *= 0x20000000`, upper = `psf_lrint (floor (in))`, lower = `psf_lrint (floor (fmod (in, 1.0) * 0x1000000))`
+    (for a zero / subnormal value in · 2^1021 · 2^29 = in · 2^1050, all scalings exact).
+    Inf / NaN: exponent 0 + 1022, both `psf_lrint` calls answer 0x80000000 (`cvtsd2si`), whose bits 0..27 are 0; sign = sign bit. -/
+def f64WriteFields (b : Nat) : Nat × Nat × Nat × Nat :=
+  let negative := if f64.sign b then 1 else 0
+  if !f64.isFinite b then (negative, 1022, 0, 0)
+  else
+    let d := f64.toDy b
+    if flushes f64 b then
+      let hl := splitScaled d.m (d.e + 1050) 24
+      (negative, 0, hl.1, hl.2)
+    else
+      let (L, ex) := frexpOf d
+      let scaled := d.m * 0x20000000                                     -- numerator of in * 2^29 over 2^L
+      (negative, (ex + 1022).toNat, scaled / 2 ^ L, (scaled % 2 ^ L) * 0x1000000 / 2 ^ L)
+
+def f64WriteBytes (b : Nat) : List Byte := f64FieldBytes (f64WriteFields b)
 def f64BeWrite (b : Nat) : List Byte := f64WriteBytes b
 def f64LeWrite (b : Nat) : List Byte := (f64WriteBytes b).reverse
 def f64BeWriteOld (b : Nat) : List Byte := f64WriteBytesWith (flushesOld f64) b
 def f64LeWriteOld (b : Nat) : List Byte := (f64WriteBytesWith (flushesOld f64) b).reverse
+/-- before the repair of KF-C01-ieee-tiny (`if (fabs (in) < DBL_MIN) return ;`, `if (in < 0.0)`) -/
+def f64BeWriteTinyOld (b : Nat) : List Byte := f64WriteBytesWith (flushes f64) b
+def f64LeWriteTinyOld (b : Nat) : List Byte := (f64WriteBytesWith (flushes f64) b).reverse
 
 /-! ## sfendian.h — byte-order helpers
 
